@@ -150,7 +150,7 @@ func (w *rwWorker) build() {
 	for _, f := range []struct {
 		amt   int64
 		denom string
-	}{{10, feeDenom}, {3, feeDenom}, {999, feeDenom}, {7, otherDenom}} {
+	}{{10, feeDenom}, {3, feeDenom}, {100, feeDenom}, {999, feeDenom}, {7, otherDenom}} {
 		f := f
 		w.tab.Add(fmt.Sprintf("C.fee(%d%s)", f.amt, f.denom), func(n engine.Node) (engine.Node, []V) {
 			c := n.(*rwNode).clone()
